@@ -16,6 +16,13 @@ func (q queryServer) CalculateBondingAmount(ctx context.Context, req *types.Quer
 		return nil, status.Error(codes.InvalidArgument, "invalid request")
 	}
 
+	if _, err := q.k.stakingKeeper.ValidatorAddressCodec().StringToBytes(req.ValidatorAddress); err != nil {
+		return nil, status.Error(codes.InvalidArgument, err.Error())
+	}
+	if req.Share.IsNil() || req.Share.IsNegative() {
+		return nil, status.Error(codes.InvalidArgument, "share must not be negative")
+	}
+
 	amount, err := q.k.CalculateAmountByShare(ctx, req.ValidatorAddress, req.Share)
 	if err != nil {
 		return nil, status.Error(codes.Internal, err.Error())
@@ -33,6 +40,13 @@ func (q queryServer) CalculateBondingAmount(ctx context.Context, req *types.Quer
 func (q queryServer) CalculateShare(ctx context.Context, req *types.QueryCalculateShareRequest) (*types.QueryCalculateShareResponse, error) {
 	if req == nil {
 		return nil, status.Error(codes.InvalidArgument, "invalid request")
+	}
+
+	if _, err := q.k.stakingKeeper.ValidatorAddressCodec().StringToBytes(req.ValidatorAddress); err != nil {
+		return nil, status.Error(codes.InvalidArgument, err.Error())
+	}
+	if req.Amount.IsNil() || req.Amount.IsNegative() {
+		return nil, status.Error(codes.InvalidArgument, "amount must not be negative")
 	}
 
 	share, err := q.k.CalculateShareByAmount(ctx, req.ValidatorAddress, req.Amount)
